@@ -204,14 +204,18 @@ pub fn run(rng: &mut Rng, tier: &str, out: &str) -> Report {
                             if again.is_err() {
                                 ok = false;
                             }
-                            let mut pairs = HashSet::new();
-                            for c in d.get_changes(&[]) {
-                                if !pairs.insert((c.actor_id().clone(), c.seq())) {
-                                    ok = false;
+                            let consistent = guard(|| {
+                                let mut pairs = HashSet::new();
+                                let mut good = true;
+                                for c in d.get_changes(&[]) {
+                                    if !pairs.insert((c.actor_id().clone(), c.seq())) {
+                                        good = false;
+                                    }
                                 }
-                            }
-                            let bytes = d.save();
-                            if !matches!(guard(|| Automerge::load(&bytes)), Ok(Ok(_))) {
+                                let bytes = d.save();
+                                good && Automerge::load(&bytes).is_ok()
+                            });
+                            if !matches!(consistent, Ok(true)) {
                                 ok = false;
                             }
                             if !ok {
